@@ -1,0 +1,68 @@
+// Copyright 2026 Dolthub, Inc.
+//
+// Licensed under the Apache License, Version 2.0 (the "License");
+// you may not use this file except in compliance with the License.
+// You may obtain a copy of the License at
+//
+//     http://www.apache.org/licenses/LICENSE-2.0
+//
+// Unless required by applicable law or agreed to in writing, software
+// distributed under the License is distributed on an "AS IS" BASIS,
+// WITHOUT WARRANTIES OR CONDITIONS OF ANY KIND, either express or implied.
+// See the License for the specific language governing permissions and
+// limitations under the License.
+
+//go:build verif
+
+package blobstore
+
+import (
+	"context"
+	"sync/atomic"
+	"time"
+
+	git "github.com/dolthub/dolt/go/store/blobstore/internal/git"
+)
+
+// verifC42PushHookAPI wraps a GitAPI and calls |before| with the 1-based number of
+// the push attempt right before every PushRefWithLease (the point between a
+// client's fetch/validate and its push, where another client of the same remote
+// can get its own push in).
+type verifC42PushHookAPI struct {
+	git.GitAPI
+	before func(attempt int)
+	n      atomic.Int64
+}
+
+func (h *verifC42PushHookAPI) PushRefWithLease(ctx context.Context, remote string, srcRef string, dstRef string, expectedDstOID git.OID) error {
+	n := int(h.n.Add(1))
+	if h.before != nil {
+		h.before(n)
+	}
+	return h.GitAPI.PushRefWithLease(ctx, remote, srcRef, dstRef, expectedDstOID)
+}
+
+// VerifC42NewGitBlobstore returns a remote-managed GitBlobstore on |gitDir| / |ref|
+// (remote "origin", fixed commit identity, read-side fetch dedup window of 1ns so that
+// every manifest read fetches) whose pushes are preceded by a call of
+// |beforePush| (may be nil) with the number of the push attempt (1, 2, ...).
+func VerifC42NewGitBlobstore(gitDir, ref string, beforePush func(attempt int)) (*GitBlobstore, error) {
+	gbs, err := NewGitBlobstoreWithOptions(gitDir, ref, GitBlobstoreOptions{
+		RemoteName:     "origin",
+		Identity:       &git.Identity{Name: "verif c42", Email: "verif-c42@test.invalid"},
+		SyncForReadTTL: time.Nanosecond,
+	})
+	if err != nil {
+		return nil, err
+	}
+	gbs.api = &verifC42PushHookAPI{GitAPI: gbs.api, before: beforePush}
+	return gbs, nil
+}
+
+// VerifC42ResetPushCount restarts the push-attempt numbering of a blobstore made by
+// VerifC42NewGitBlobstore (call it before the operation under observation).
+func VerifC42ResetPushCount(gbs *GitBlobstore) {
+	if h, ok := gbs.api.(*verifC42PushHookAPI); ok {
+		h.n.Store(0)
+	}
+}
